@@ -31,8 +31,9 @@ LEVEL_NOTE = ("trusted: the closed-form expressions and CODATA-2018 constants in
               "size the windows")
 TECHNIQUE = ("runtime monitoring: per-call reference-model oracle + recording mock atomic-data provider (argument recorder) "
              "+ metamorphic linearity/additivity monitors over generated and hostile plasma states")
-ASSUMPTIONS = ["for thermal CX with several donors, a donor with non-positive density or temperature must contribute nothing; "
-               "an identically zero emission is accepted as well (both readings of the zero clause)",
+ASSUMPTIONS = ["for thermal CX with several donors, a donor with non-positive density or temperature must contribute nothing and "
+               "the remaining eligible donors still contribute (the documented total is a sum over donors; the zero clause is "
+               "read per term)",
                "a non-positive temperature of the emitting species means zero emission for the Gaussian-family line shapes "
                "(width-less line); not judged for StarkBroadenedLine",
                "hydrogen-isotope neutral densities of mixed sign are not generated for TotalRadiatedPower (statement silent)",
@@ -620,7 +621,10 @@ def _line_oracle(case, st):
     if dead:
         return 0.0, [], terms
     want = ni * sum(terms.values()) / (4 * math.pi)
-    return want, ([0.0] if hostile else []), terms
+    # A donor with non-positive density or temperature contributes nothing; the other eligible donors still do
+    # (the documented total is a sum over donors).  An earlier version also accepted an identically zero total here;
+    # that let a change which drops every other donor's term slip through, so the reading is now per term.
+    return want, [], terms
 
 
 def _events(provider, family):
